@@ -60,7 +60,14 @@ pub struct ImmediateEffect {
 type StoredEffect = Option<Arc<RwLock<inner::EffectInner>>>;
 
 impl Dispose for ImmediateEffect {
-    fn dispose(self) {}
+    fn dispose(self) {
+        // A run of this effect may be in progress further up the call stack: whoever notified
+        // it holds a strong reference for the duration of the call, so dropping this handle
+        // does not stop it yet. Tell it not to run again.
+        if let Some(inner) = &self.inner {
+            inner.write().or_poisoned().dispose();
+        }
+    }
 }
 
 impl ImmediateEffect {
@@ -194,6 +201,8 @@ mod inner {
         fun: Arc<dyn Fn() + Send + Sync>,
         sources: SourceSet,
         any_subscriber: AnySubscriber,
+        /// Set by [`Dispose::dispose`](crate::traits::Dispose::dispose): no further runs.
+        disposed: bool,
     }
 
     impl EffectInner {
@@ -221,8 +230,13 @@ mod inner {
                     fun: Arc::new(fun),
                     sources: SourceSet::new(),
                     any_subscriber,
+                    disposed: false,
                 })
             })
+        }
+
+        pub(super) fn dispose(&mut self) {
+            self.disposed = true;
         }
     }
 
@@ -242,7 +256,7 @@ mod inner {
             let state = {
                 let guard = self.read().or_poisoned();
 
-                if guard.owner.paused() {
+                if guard.disposed || guard.owner.paused() {
                     return false;
                 }
 
